@@ -90,13 +90,27 @@ func propC05(t *rapid.T) {
 		recvName = "reused(copy-on-write on)"
 	}
 	chunking := []int{1 << 20}
+	cookieVariant := false
 	var consumed int
 	var rn int64
 	switch entry {
 	case 0:
 		chunking = drawChunking(t, "chunking")
 		r := &chunkReader{data: stream, sizes: chunking, eofWithData: garbage == 0 && rapid.Bool().Draw(t, "eofWithData")}
-		rn, err = recv.ReadFrom(r)
+		if len(stream) >= 4 && rapid.IntRange(0, 3).Draw(t, "cookieHeader") == 2 {
+			// the documented variant for callers that have already consumed the 4-byte cookie
+			r.pos = 4
+			hdr := append([]byte(nil), stream[:4]...)
+			if rapid.Bool().Draw(t, "must") && origValid {
+				rn, err = recv.MustReadFrom(r, hdr...)
+			} else {
+				rn, err = recv.ReadFrom(r, hdr...)
+			}
+			chunking = append([]int{-4}, chunking...) // marks the variant in the description
+			cookieVariant = true
+		} else {
+			rn, err = recv.ReadFrom(r)
+		}
 		consumed = r.pos
 	case 1:
 		rn, err = recv.FromBuffer(stream)
@@ -115,7 +129,8 @@ func propC05(t *rapid.T) {
 	if err != nil {
 		fail("%s: error %v", edesc, err)
 	}
-	if int(rn) != len(by) {
+	if int(rn) != len(by) && !(cookieVariant && int(rn) == len(by)-4) {
+		// (with a pre-read cookie the documentation does not say whether its 4 bytes are counted)
 		fail("%s: returned n=%d, stream has %d bytes", edesc, rn, len(by))
 	}
 	if consumed != len(by) {
@@ -134,6 +149,19 @@ func propC05(t *rapid.T) {
 	}
 	if oldLive != nil && !oldLive.BufferIntact() {
 		fail("%s: reading into the reused receiver wrote to the buffer it previously viewed", edesc)
+	}
+	// the copying entry points must not keep the caller's bytes (encoding.BinaryUnmarshaler: "UnmarshalBinary
+	// must copy the data if it wishes to retain the data after returning"; only the FromBuffer family is
+	// documented as aliasing): overwrite them and look again
+	if entry == 0 || entry == 3 {
+		saved := append([]byte(nil), stream...)
+		for i := range stream {
+			stream[i] = 0xA5 ^ byte(i)
+		}
+		if d := live.Check(recv, m); d != "" {
+			fail("%s: the decoded bitmap changed when the caller's input bytes were overwritten afterwards: %s", edesc, d)
+		}
+		copy(stream, saved)
 	}
 	// the decoded bitmap keeps working (zero-copy ones copy on write)
 	if d := exercise(t, "post", recv, m, 4); d != "" {
